@@ -104,6 +104,10 @@ struct FindFn {
 
 impl FindFn {
     fn find_regex_in_str(value: &str, regex: &ValueRegex, offset: usize) -> Option<usize> {
+        // `Regex::find_at` panics when the offset is past the end or inside a character
+        if offset > value.len() || !value.is_char_boundary(offset) {
+            return None;
+        }
         regex.find_at(value, offset).map(|found| found.start())
     }
 
